@@ -10,6 +10,22 @@
 
 using namespace pv;
 
+// Anonymous mappings of 1 MiB and more can be made to fail with ENOMEM (a process at its address-space or overcommit limit): the
+// code under test must then fall back to the heap without changing its behaviour.  Switched on per op.
+#include <sys/syscall.h>
+#include <unistd.h>
+#include <cerrno>
+static bool g_fail_big_anon_mmap = false;
+static unsigned long g_failed_mmaps = 0;
+extern "C" void *mmap(void *addr, size_t length, int prot, int flags, int fd, off_t offset) {
+  if (g_fail_big_anon_mmap && (flags & MAP_ANONYMOUS) && length >= (1u << 20)) { ++g_failed_mmaps; errno = ENOMEM; return MAP_FAILED; }
+  return (void *)syscall(SYS_mmap, addr, length, prot, flags, fd, offset);
+}
+extern "C" void *mremap(void *old_address, size_t old_size, size_t new_size, int flags, ...) {
+  if (g_fail_big_anon_mmap && new_size >= (1u << 20)) { ++g_failed_mmaps; errno = ENOMEM; return MAP_FAILED; }
+  return (void *)syscall(SYS_mremap, old_address, old_size, new_size, flags, 0);
+}
+
 // ---------------------------------------------------------------- utf8 (C12)
 static Reg r_utf8_decode("utf8.decode", [](const std::vector<std::string> &a) -> std::string {
   std::string bs;
@@ -92,6 +108,66 @@ static Reg r_b64_dec("b64.dec", [](const std::vector<std::string> &a) -> std::st
     return "ERR:length";
   }
   return "ok " + hex(out);
+});
+
+// ---- texts of 2^31 bytes and more (sizes at which 32-bit counters wrap), held in lazily committed anonymous mappings
+// content of the huge plain text: NUL everywhere except a marker byte every 1048573 bytes
+static inline unsigned char huge_byte(unsigned long long p) { return p % 1048573ull == 0 ? (unsigned char)((p / 1048573ull) % 251 + 1) : 0; }
+
+// b64.enchuge <n> <off,off,...>: base64_encode of the n-byte text above; reports the output length, the 8 output characters that
+// encode input bytes [off, off+6) for every listed off (multiples of 3), and everything from the last complete-or-partial group on
+static Reg r_b64_enchuge("b64.enchuge", [](const std::vector<std::string> &a) -> std::string {
+  if (a.size() != 2) return "bad-op";
+  unsigned long long n = strtoull(a[0].c_str(), NULL, 10);
+  if (!n) return "bad-op";
+  size_t maplen = ((n + 4095) / 4096 + 1) * 4096;
+  void *m = mmap(NULL, maplen, PROT_READ | PROT_WRITE, MAP_PRIVATE | MAP_ANONYMOUS | MAP_NORESERVE, -1, 0);
+  if (m == MAP_FAILED) return "skipped:mmap";
+  unsigned char *p = static_cast<unsigned char*>(m);
+  for (unsigned long long q = 0; q < n; q += 1048573ull) p[q] = huge_byte(q);
+  std::string out, res;
+  try {
+    preprocess::base64_encode(util::StringPiece(reinterpret_cast<const char*>(p), n), out);
+    res = "ok len=" + std::to_string(out.size());
+    std::istringstream offs(a[1]);
+    std::string tok;
+    while (std::getline(offs, tok, ',')) {
+      unsigned long long o = strtoull(tok.c_str(), NULL, 10), at = o / 3 * 4;
+      res += " " + tok + ":" + (at + 8 <= out.size() ? hex(out.substr(at, 8)) : std::string("short"));
+    }
+    unsigned long long last = (n - 1) / 3 * 4;
+    res += " tail:" + (last <= out.size() ? hex(out.substr(last)) : std::string("short"));
+  } catch (const std::exception &e) {
+    res = std::string("ERR:") + e.what();
+  }
+  munmap(m, maplen);
+  return res;
+});
+
+// b64.dechuge <n> <hex prefix without '='>: base64_decode of the prefix followed by NUL bytes up to n bytes in all.  NUL is not a
+// base64 character, so the call must fail (theorem decode_rejects_foreign); "ok <size>" means the text was not looked at.
+static Reg r_b64_dechuge("b64.dechuge", [](const std::vector<std::string> &a) -> std::string {
+  std::string pre;
+  if (a.size() != 2 || !unhex(a[1], pre)) return "bad-op";
+  unsigned long long n = strtoull(a[0].c_str(), NULL, 10);
+  if (n <= pre.size()) return "bad-op";
+  size_t maplen = ((n + 4095) / 4096 + 1) * 4096;
+  void *m = mmap(NULL, maplen, PROT_READ | PROT_WRITE, MAP_PRIVATE | MAP_ANONYMOUS | MAP_NORESERVE, -1, 0);
+  if (m == MAP_FAILED) return "skipped:mmap";
+  memcpy(m, pre.data(), pre.size());
+  std::string out, res;
+  try {
+    preprocess::base64_decode(util::StringPiece(static_cast<const char*>(m), n), out);
+    res = "ok " + std::to_string(out.size());
+  } catch (const util::Exception &) {
+    res = "ERR:notb64";
+  } catch (const std::length_error &) {
+    res = "ERR:length";
+  } catch (const std::bad_alloc &) {
+    res = "skipped:bad_alloc";
+  }
+  munmap(m, maplen);
+  return res;
 });
 
 // b64.decseq <hex> <hex> ...: the documents are decoded one after the other into the SAME std::string, as the tools do
@@ -305,6 +381,10 @@ template <class Entry, bool HasValue> std::string bulk_run(uint64_t n, uint64_t 
       typename Table::ConstIterator it;
       if (t.Find(bulk_key(n + 7 + j, seed), it)) return std::string("FAIL ") + when + ": a key that was never inserted is reported present";
     }
+    // every bucket is either empty or holds one of the keys inserted so far: as many occupied buckets as keys
+    uint64_t occupied = 0;
+    for (typename Table::ConstIterator b = t.RawBegin(); b != t.RawEnd(); ++b) if (b->GetKey()) ++occupied;
+    if (occupied != upto) return std::string("FAIL ") + when + ": " + std::to_string(occupied) + " occupied buckets for " + std::to_string(upto) + " inserted keys (table of " + std::to_string(t.RawEnd() - t.RawBegin()) + " buckets): buckets hold keys that were never inserted";
     return "";
   };
   for (uint64_t i = 0; i < n; ++i) {
@@ -331,12 +411,18 @@ template <class Entry, bool HasValue> std::string bulk_run(uint64_t n, uint64_t 
   return "ok growths=" + std::to_string(growths) + " buckets=" + std::to_string(buckets) + " bytes=" + std::to_string(buckets * sizeof(Entry));
 }
 }
+// table.bulk <n> <seed> <8|16> [enomem]: with "enomem" every anonymous mapping of 1 MiB or more is refused while the table grows
 static Reg r_table_bulk("table.bulk", [](const std::vector<std::string> &a) -> std::string {
-  if (a.size() != 3) return "bad-op";
+  if (a.size() != 3 && !(a.size() == 4 && a[3] == "enomem")) return "bad-op";
   uint64_t n = strtoull(a[0].c_str(), NULL, 10), seed = strtoull(a[1].c_str(), NULL, 10);
+  g_fail_big_anon_mmap = a.size() == 4;
+  g_failed_mmaps = 0;
+  std::string r;
   try {
-    return a[2] == "8" ? bulk_run<KEntry, false>(n, seed) : bulk_run<TEntry, true>(n, seed);
-  } catch (const std::exception &e) { return std::string("ERR:exception ") + e.what(); }
+    r = a[2] == "8" ? bulk_run<KEntry, false>(n, seed) : bulk_run<TEntry, true>(n, seed);
+  } catch (const std::exception &e) { r = std::string("ERR:exception ") + e.what(); }
+  g_fail_big_anon_mmap = false;
+  return a.size() == 4 ? r + " refused_mappings=" + std::to_string(g_failed_mmaps) : r;
 });
 
 int main() { return pv::main_loop(); }
